@@ -211,6 +211,7 @@ point, any change on a law with a cached helper sampler); distinct by hash of th
     ctx.assumptions = vec![
         "parameter domains are the documented ones: p in [0,1]; alpha, beta, lambda, minval, dof > 0; sigma >= 0; lower <= upper; n any non-negative integer; mu any finite real".into(),
         "integer-typed parameters travel through update(&[f64]) as integer-valued floats; NaN, infinite and non-integral values for integer parameters are not generated".into(),
+        "NaN in a real-valued parameter: whether it is rejected is not asserted (several constructors of the unchanged library accept it); asserted is only that constructor, setter and update treat it alike (sub-check nan-alike/<Dist>)".into(),
         "a panic of any kind counts as rejection; a panic raised by both the mutated object and its fresh twin on the same observation counts as identical behaviour".into(),
         "after a rejected setter (and a rejected update of a one-parameter law) the parameters are unchanged; after a rejected bulk update of a two-parameter law they are unknown but in-domain and the next valid bulk update must succeed".into(),
         format!("sample streams are not compared while a gamma-sampler shape below {} is current (Gamma::sample does not terminate there on the unchanged tree, F10/C03); densities, mean and variance still are", SAFE_SHAPE),
@@ -261,6 +262,18 @@ point, any change on a law with a cached helper sampler); distinct by hash of th
     }
     ctx.exhaustive.push("bulk reproducibility: 13 distributions (default-class parameters) x 19 sizes from 1 to 300000 x {sample_n, sample_matrix with 8 columns}".into());
     ctx.run_prop_par("bulk", ctx.scale(300, 6_000), 16, bulk_strat, check_bulk);
+    // NaN is treated alike by constructor, setter and update: every real-valued parameter of every distribution
+    for dist in 0..N_DIST as u8 {
+        for param in 0..specs(dist).len() {
+            for j in 0..ctx.scale(8, 64) {
+                let h = crate::engine::mix_seed(ctx.seed, "C18/nan", (dist as u64) << 16 | (param as u64) << 8 | j);
+                let c = NanCase { dist, param, a: if j == 0 { 0 } else { h as u16 }, b: if j == 0 { 0 } else { (h >> 16) as u16 } };
+                let sub = format!("nan-alike/{}", DIST_NAMES[dist as usize]);
+                ctx.check_one(&sub, &c, check_nan_alike);
+            }
+        }
+    }
+    ctx.exhaustive.push("NaN treated alike by constructor / setter / update: every real-valued parameter of the 13 distributions".into());
     // byte-decoded histories (all distributions mixed; exercises the fuzz decoder)
     ctx.run_prop_par("bytes", ctx.scale(4_000, 50_000), 8, || proptest::collection::vec(any::<u8>(), 0..160).prop_map(|bytes| BytesCase { bytes }), check_bytes);
     // coverage-guided campaign (libFuzzer, ASan) over the same decoder and oracle: thorough tier only
@@ -333,6 +346,51 @@ pub fn check_bulk(ctx: &mut Ctx, c: &BulkCase) -> R {
     Ok(())
 }
 
+/// "constructors, setters and bulk updates alike": a non-number (NaN) in a real-valued parameter is treated the
+/// same way by all three routes. Whether NaN is rejected at all is not asserted (several constructors of the
+/// unchanged library let it through, DESIGN section 5); only a route that disagrees with the constructor is a
+/// violation — an object must not be able to reach through a setter what its constructor refuses.
+#[derive(Clone, Debug, serde::Serialize, serde::Deserialize)]
+pub struct NanCase {
+    pub dist: u8,
+    pub param: usize,
+    pub a: u16,
+    pub b: u16,
+}
+
+pub fn check_nan_alike(ctx: &mut Ctx, c: &NanCase) -> R {
+    if c.dist as usize >= N_DIST || c.param >= specs(c.dist).len() {
+        return Ok(());
+    }
+    let spec = &specs(c.dist)[c.param];
+    if matches!(spec.kind, PK::PosInt | PK::Nat | PK::IntLo | PK::IntHi) {
+        return Ok(());
+    }
+    let name = DIST_NAMES[c.dist as usize];
+    let sub = format!("nan-alike/{}", name);
+    let p = valid_params(c.dist, c.a, c.b);
+    if !in_domain(c.dist, &p) {
+        return Ok(());
+    }
+    ctx.case(&sub, spec.name, true, Hx::new().json(c).finish());
+    ctx.sample(&sub, || json!(c));
+    let mut q = p.clone();
+    q[c.param] = f64::NAN;
+    let ctor = Obj::construct(c.dist, &q).is_ok();
+    let fresh = || Obj::construct(c.dist, &p).map_err(|m| Fail { sig: format!("C18/{}/new/valid-rejected", name), what: format!("{}::new{:?} (valid parameters) panicked: {}", name, p, m) });
+    let setter = fresh()?.set(c.param, f64::NAN).is_ok();
+    let update = fresh()?.update(&q).is_ok();
+    ctx.label(&sub, if ctor { "constructor-accepts-NaN" } else { "constructor-rejects-NaN" });
+    let say = |b: bool| if b { "accepts" } else { "rejects" };
+    ensure!(
+        ctor == setter && ctor == update,
+        format!("C18/{}/nan-alike/{}", name, spec.name),
+        "{} (valid parameters {:?}), NaN for `{}`: the constructor {} it, {} {} it, update {} it — the three routes do not treat the value alike",
+        name, p, spec.name, say(ctor), spec.setter, say(setter), say(update)
+    );
+    Ok(())
+}
+
 fn bulk_strat() -> impl Strategy<Value = BulkCase> {
     (0..N_DIST as u8, any::<u16>(), any::<u16>(), 0..BULK_SIZES.len(), 0usize..4, any::<u64>()).prop_map(|(dist, a, b, si, ci, seed)| {
         let n = BULK_SIZES[si];
@@ -348,6 +406,9 @@ pub fn replay(ctx: &mut Ctx, sub: &str, v: Value) -> Option<R> {
     }
     if sub == "bytes" {
         return Some(check_bytes(ctx, &decode::<BytesCase>(v)?));
+    }
+    if sub.starts_with("nan-alike/") {
+        return Some(check_nan_alike(ctx, &decode::<NanCase>(v)?));
     }
     if sub.starts_with("hist/") {
         Some(check_hist(ctx, &decode::<History>(v)?))
